@@ -272,7 +272,7 @@ def ev_sampler(case):
         def P(t):
             check_pt(t, "posterior-evaluated", ctx)
             count[0] += 1
-            if count[0] > case.get("horizon", 40):
+            if count[0] > case.get("horizon", 60 if kind == "HamiltonianChain-fd" else 8 * case["steps"]):
                 raise Cut()  # horizon: retry loops make the execution space cyclic
             return spost((np.asarray(t) - lo) / w)
 
@@ -299,6 +299,22 @@ def ev_sampler(case):
             else:
                 pos = np.array([start, centre, lo + 0.9 * w, lo + 0.6 * w, lo + np.array([0.2, 0.8][:d]) * w])
                 ch = EnsembleSampler(posterior=P, starting_positions=pos, bounds=(lo.copy(), hi.copy()), alpha=case.get("alpha", 2.0), display_progress=False)
+        if case.get("loaded"):
+            # the limits must stay in force across save -> load (the reloaded sampler is given the same posterior/gradient)
+            import os
+            import tempfile
+
+            fd, path = tempfile.mkstemp(suffix=".npz")
+            os.close(fd)
+            try:
+                with lib("save-load"):
+                    ch.save(path)
+                    if kind == "HamiltonianChain":
+                        ch = type(ch).load(path, posterior=P, grad=G)
+                    else:
+                        ch = type(ch).load(path, posterior=P)
+            finally:
+                os.unlink(path)
         set_rng(ch, gen)
         if hasattr(ch, "max_attempts"):
             ch.max_attempts = 3
@@ -323,7 +339,9 @@ def ev_sampler(case):
 
     for ctx, res in explore(body, bound=case["bound"], max_exec=100000):
         nexec[0] += 1
-    tags.add(f"{kind}:{boxname}:{where}:d={d}")
+        if len(fails) >= 3 or (fails and nexec[0] > 2000):
+            break  # the violation is established; do not unroll every failing retry loop
+    tags.add(f"{kind}:{boxname}:{where}:d={d}" + (":loaded" if case.get("loaded") else ""))
     return {"fails": fails, "n": nexec[0], "states": nexec[0], "transitions": nev[0], "tags": tags}
 
 
@@ -356,6 +374,8 @@ def run(ck):
                     if kind.startswith("Hamiltonian"):
                         sc.append(dict(c, eps=40.0))
                     sc.append(c)
+                    if where in ("inside", "corner") and (d == 2 or not q):
+                        sc.append(dict(c, loaded=True))
     ck.run_cases("sampler", sc, chunk=1)
     ck.rule = ("(i) fold maps on the lattice lower+(k+offset)*width/8, |k|<=400, for 8 boxes of different magnitude/sign; (ii) all call sequences of length %d over "
                "{set_boundaries x3, remove, set_non_negative(True/False)} with the reference limit model, every state probed with 9 overshooting raw proposals; "
